@@ -115,6 +115,17 @@ def expand(expr, defs, depth=6):
     return _Subst(defs, depth).visit(copy.deepcopy(expr))
 
 
+def plain_assigns(fn):
+    """(target, value, statement) of every single-target assignment of fn, annotated or not (`x = v`, `x: T = v`)"""
+    out = []
+    for n in body_nodes(fn):
+        if isinstance(n, ast.Assign) and len(n.targets) == 1:
+            out.append((n.targets[0], n.value, n))
+        elif isinstance(n, ast.AnnAssign) and n.value is not None:
+            out.append((n.target, n.value, n))
+    return out
+
+
 def returns(fn) -> List[ast.Return]:
     return [n for n in body_nodes(fn) if isinstance(n, ast.Return)]
 
